@@ -173,3 +173,40 @@ func HC07_setImplements() {
 		vfAssert(same, "C07/implements-independent-of-map-order")
 	}
 }
+
+// HC07_enumFileOrder: the constants of an enum spread over two files of the package are reported in
+// the same order whichever file the loader happened to parse first (go/packages parses the files of
+// a package concurrently: the relative order of the positions of two files is not determined).
+func HC07_enumFileOrder() {
+	kinds := []string{"string", "int"}
+	kind := kinds[vfChoice("backing", 2)]
+	vals := map[string][]string{"string": {"\"z\"", "\"b\"", "\"a\"", "\"g\""}, "int": {"7", "-1", "3", "12"}}[kind]
+	f1 := "package p\n\ntype E " + kind + "\n\nconst (\n\tZeta E = " + vals[0] + " // last letter\n\tBeta E = " + vals[1] + "\n)\n\ntype Holder struct{ V E }\n"
+	f2 := "package p\n\nconst (\n\tAlpha E = " + vals[2] + " // first letter\n\tGamma E = " + vals[3] + "\n)\n"
+	members := func(firstParsed int) []string {
+		names, srcs := []string{"/m/p/a.go", "/m/p/b.go"}, []string{f1, f2}
+		if firstParsed == 1 {
+			names, srcs = []string{"/m/p/b.go", "/m/p/a.go"}, []string{f2, f1}
+		}
+		pkg := vfTypeCheck("example.com/mod/p", names, srcs, nil)
+		ana := NewAnalysisFromFile(pkg, "/m/p/a.go")
+		enum, ok := ana.Types[pkg.Types.Scope().Lookup("E").Type()].(*Enum)
+		if !ok {
+			return nil
+		}
+		var out []string
+		for _, m := range enum.Members {
+			out = append(out, m.Const.Name()+"="+m.Const.Val().ExactString()+" //"+m.Comment)
+		}
+		return out
+	}
+	a, b := members(0), members(1)
+	vfObserve("members", a)
+	same := len(a) == 4 && len(b) == 4
+	if same {
+		for i := range a {
+			same = same && a[i] == b[i]
+		}
+	}
+	vfAssert(same, "C07/enum-members-independent-of-the-order-the-files-were-parsed")
+}
